@@ -70,7 +70,7 @@ func (t *Transaction) rollback() {
 	ctx := context.Background()
 	verifhook.Point("tx.expired:" + t.transactionId)
 	defer verifhook.Point("tx.expired.done:" + t.transactionId)
-	t.transactionManager.Rollback(ctx, t.GetRollbackTransaction())
+	t.transactionManager.rollbackExpired(ctx, t)
 }
 
 func (t *Transaction) StartRollbackTimer() error {
